@@ -35,6 +35,9 @@ EXPLANATION = (
     "merge test and registration use the same key.  R4 the index ranges stored under '<node>/<op>/<var>' in _vectorization_indices "
     "(_apply_nodes, _apply_populations_and_connections) are range(start, stop) of the (start, stop) entries returned by the apply call "
     "of the same loop iteration, for the node named in the key.  R5 = C16-R1 (index roles: rows are targets, columns are sources).  "
+    "R9 CircuitTemplate.apply: the slot indices an edge group hands over as source_idx/target_idx for the vectorized edge IR it obtained "
+    "through the (shared, length-accumulating) node cache are [IR.length - n, IR.length), read after the group's own n extensions - "
+    "not a range that starts at 0 or ignores IR.length.  "
     "NOT decided: the choice of the sparseness threshold, equality of trajectories, user edge dictionaries that already contain "
     "source_idx/target_idx."
 )
@@ -1568,6 +1571,221 @@ def r_perm_identity(ctx, rid):
     permutation_test_as_identity(ctx, rid)
 
 
+# ------------------------------------------------------------------------------------------------
+# R9  slots of an edge group inside a shared, growing vectorized IR
+# ------------------------------------------------------------------------------------------------
+
+def _returns_applied_ir(ctx, g, depth=0):
+    """g hands back the IR produced by ONE `<template>.apply(..., vectorize=...)` call (which goes through cache_func: with
+    vectorize=True the IR is the cached one, shared by every caller with the same operator graph, and its length advances by one),
+    either itself or as a plain wrapper `return <such a call>`."""
+    if depth > 2:
+        return False
+    body = [st for st in g.node.body if not (isinstance(st, ast.Expr) and isinstance(st.value, ast.Constant))]
+    if len(body) == 1 and isinstance(body[0], ast.Return) and isinstance(body[0].value, ast.Call):
+        h = _R.private_helper(ctx, g, body[0].value)
+        if h is not None and _returns_applied_ir(ctx, h, depth + 1):
+            return True
+    if any(isinstance(x, (ast.For, ast.While)) and any(isinstance(c, ast.Call) and call_name(c) == "apply" for c in ast.walk(x))
+           for x in walk_shallow(g.node)):
+        return False
+    rets = [r.value for r in walk_shallow(g.node) if isinstance(r, ast.Return) and r.value is not None]
+    if not rets:
+        return False
+    for v in rets:
+        cur = v
+        ok = False
+        for _ in range(4):
+            if isinstance(cur, ast.Name):
+                defs = ctx.rd(g).defs_reaching(cur)
+                if len(defs) != 1 or not isinstance(defs[0], ast.Assign):
+                    break
+                d = defs[0]
+                val = assigned_value(d, cur.id)
+                if val is None and isinstance(d.value, ast.Call) and isinstance(d.targets[0], ast.Tuple) and d.targets[0].elts \
+                        and isinstance(d.targets[0].elts[0], ast.Name) and d.targets[0].elts[0].id == cur.id:
+                    val = d.value                          # ir, labels, ranges = template.apply(...)
+                if val is None:
+                    break
+                cur = val
+                continue
+            if isinstance(cur, ast.Call) and call_name(cur) == "apply" and any(k.arg == "vectorize" for k in cur.keywords):
+                ok = True
+            break
+        if not ok:
+            return False
+    return True
+
+
+def r9_shared_ir_slots(ctx, rid):
+    """CircuitTemplate.apply wires the n edges of one edge group to n slots of the vectorized edge IR it obtained for them.  With
+    vectorize=True that IR comes out of the node cache and is shared by every group with a structurally equal edge template; each
+    application extends it by one slot and advances its `length`.  The slots of the current group are therefore the LAST n ones,
+    [length - n, length), read AFTER the group's own extensions - never [0, n) and never a range that ignores the IR's length: those
+    are the slots of the first group that used the template (vectorize=False has one fresh IR per edge and would not notice)."""
+    import sympy as sp
+    from engine.symx import to_sympy, Unsupported
+    cls = ctx.repo.get_class(FE, "CircuitTemplate")
+    f0 = get_method(ctx, cls, "apply")
+    members, todo = [f0], [(f0, 0)]
+    while todo:
+        fx, dpt = todo.pop()
+        if dpt >= 2:
+            continue
+        for c in walk_shallow(fx.node):
+            if isinstance(c, ast.Call):
+                g = _R.private_helper(ctx, fx, c)
+                if g is not None and all(g.qual != m.qual for m in members):
+                    members.append(g)
+                    todo.append((g, dpt + 1))
+    _ts = to_sympy            # calls and subscripts are atoms of the arithmetic (len(source_idx), shape[0] ...), see `opaque` below
+    # the primitive "apply the edge template once" helpers stay calls; every other private helper (a loop that applies the template
+    # n times, the whole edge-group block) is spliced in, so that extensions and slot ranges are seen side by side
+    keep = tuple(sorted({m.name for m in cls.methods.values() if _returns_applied_ir(ctx, m)}
+                        | {m.name for m in cls.methods.values() if {"source_idx", "target_idx"} & set(m.params)}))   # the sinks' interface
+    n_sinks = 0
+    for f_orig in members:
+        f = inlined(ctx, f_orig, keep=keep)
+        cfg, rd = ctx.cfg(f), ctx.rd(f)
+        # locals that hold a (possibly shared) vectorized IR, with the statements that extend it
+        ir_defs = {}
+        for st in cfg.stmts():
+            if isinstance(st, ast.Assign) and len(st.targets) == 1 and isinstance(st.targets[0], ast.Name) and isinstance(st.value, ast.Call):
+                g = _R.private_helper(ctx, f, st.value)
+                if g is not None and _returns_applied_ir(ctx, g):
+                    ir_defs.setdefault(st.targets[0].id, []).append(st)
+        # plain aliases of such a local (`edge_ir = result` left behind by the splicing) denote the same IR
+        alias = {nm: nm for nm in ir_defs}
+        changed = True
+        while changed:
+            changed = False
+            for st in cfg.stmts():
+                if isinstance(st, ast.Assign) and len(st.targets) == 1 and isinstance(st.targets[0], ast.Name) and isinstance(st.value, ast.Name) \
+                        and st.value.id in alias and st.targets[0].id not in alias:
+                    alias[st.targets[0].id] = alias[st.value.id]
+                    changed = True
+        if len(set(alias.values())) > 1:
+            roots = sorted(set(alias.values()))
+            merged = [d for r in roots for d in ir_defs[r]]
+            # several result locals of one spliced helper that end up in one name: one IR
+            tops = {nm for nm in alias if not any(isinstance(st, ast.Assign) and isinstance(st.value, ast.Name) and st.value.id == nm
+                                                   and isinstance(st.targets[0], ast.Name) for st in cfg.stmts())}
+            if len(tops) == 1:
+                ir_defs = {roots[0]: merged}
+                alias = {nm: roots[0] for nm in alias}
+        if not ir_defs:
+            continue
+        # sinks: index lists handed over as source_idx= / target_idx= whose value is a range
+        sinks = []
+        for c in walk_shallow(f.node):
+            if not isinstance(c, ast.Call):
+                continue
+            for k in c.keywords:
+                if k.arg in ("source_idx", "target_idx"):
+                    v = k.value
+                    origin = v
+                    at = stmt_of(cfg, c)
+                    if isinstance(v, ast.Name):
+                        ds = rd.defs_reaching(v)
+                        if len(ds) != 1 or assigned_value(ds[0], v.id) is None:
+                            continue
+                        at, v = ds[0], assigned_value(ds[0], v.id)
+                    while isinstance(v, ast.Call) and call_name(v) in ("list", "tuple", "asarray", "array") and len(v.args) == 1:
+                        v = v.args[0]
+                    if isinstance(v, ast.Call) and call_name(v) in ("range", "arange") and v.args and not v.keywords:
+                        sinks.append((c, k, origin, v, at))
+        for c, k, origin, rng, at in sinks:
+            # which IR: the one whose extension dominates this use
+            cands = [nm for nm, ds in ir_defs.items() if any(cfg.dominates(d, stmt_of(cfg, c)) or cfg.dominates(d, at) for d in ds)
+                     or any(_R._reach_forward(cfg, d, at) for d in ds)]
+            mentioned = {alias[x.id] for x in ast.walk(rng) if isinstance(x, ast.Name) and x.id in alias}
+            if len(mentioned) == 1:
+                cands = sorted(mentioned)
+            if len(cands) != 1:
+                continue                      # an index range that has nothing to do with a shared IR
+            E = cands[0]
+            n_sinks += 1
+            label = _c16._uniq(ctx, rid, f, f"slots {k.arg}={norm(origin)}")
+            L = sp.Symbol("<IR>.length")
+            names_E = {nm for nm, r in alias.items() if r == E}
+
+            def to_sympy(e, names_E=names_E, depth=0):
+                def opaque(n):
+                    if isinstance(n, ast.Attribute) and n.attr == "length" and isinstance(n.value, ast.Name) and n.value.id in names_E:
+                        return sp.Symbol("<IR>.length")
+                    if isinstance(n, (ast.Call, ast.Subscript)):
+                        return sp.Symbol(ast.unparse(n))       # len(source_idx), shape[0] ... are atoms of the arithmetic
+                    if isinstance(n, ast.Name) and depth < 4 and getattr(n, "_parent", None) is not None and n.id not in names_E:
+                        v = single_def_value(ctx, f, n)         # n = len(source_idx); start = stop - n
+                        if v is not None:
+                            return to_sympy(v, names_E, depth + 1)
+                    return None
+                return _ts(e, leaf=opaque)
+            args = list(rng.args)
+            lo_e, hi_e = (ast.Constant(value=0), args[0]) if len(args) == 1 else (args[0], args[1])
+            try:
+                lo_s = to_sympy(lo_e)
+                hi_s = to_sympy(hi_e)
+            except Unsupported as e:
+                raise AnalysisError(f"{rid}: cannot read the slot range `{norm(rng)}` in {f.qual}: {e}")
+            facts = {"range": norm(rng), "ir": E, "lower": str(lo_s), "upper": str(hi_s), "extensions": [norm(d)[:80] for d in ir_defs[E]]}
+            if L not in lo_s.free_symbols and L not in hi_s.free_symbols:
+                ctx.violation(rid, f, at, f"the slots `{norm(rng)}` handed over as {k.arg} do not depend on `{E}.length`: `{E}` may be the cached "
+                                          f"IR shared with earlier edge groups (its length accumulates), so this group would be wired to the "
+                                          f"slots of the first group instead of the slots it has just appended", facts, label=label)
+                continue
+            # (a) read after the group's own extensions
+            late = [d for d in ir_defs[E] if d is not at and _R._reach_forward(cfg, at, d)]
+            if late:
+                ctx.violation(rid, f, at, f"`{norm(rng)}` reads `{E}.length` before `{norm(late[0])[:70]}` extends the IR for this group: the range "
+                                          f"names the slots of the previous group", facts, label=label)
+                continue
+            # (b) upper end is the length
+            dhi = sp.simplify(hi_s - L)
+            if dhi != 0:
+                if dhi.is_number:
+                    ctx.violation(rid, f, at, f"the slot range `{norm(rng)}` ends at `{E}.length` {'+' if dhi > 0 else '-'} {abs(dhi)}: it is shifted "
+                                              f"against the slots this group appended", facts, label=label)
+                    continue
+                raise AnalysisError(f"{rid}: upper end `{norm(hi_e)}` of the slot range in {f.qual} is not `{E}.length` (unrecognised form)")
+            # (c) width = number of extensions made for this group
+            width = sp.simplify(L - lo_s)
+            count = None
+            for d in ir_defs[E]:
+                loops = [a for a in _anc(d) if isinstance(a, ast.For) and not contains(a, at)]      # a loop that only counts extensions
+                if not loops:
+                    continue
+                outside = [d2 for d2 in ir_defs[E] if not contains(loops[0], d2)]              # the first extension made in front of it
+                it = loops[0].iter
+                if isinstance(it, ast.Call) and call_name(it) == "range" and not it.keywords:
+                    try:
+                        if len(it.args) == 2:
+                            cnt = to_sympy(it.args[1]) - to_sympy(it.args[0]) + (1 if outside else 0)
+                        elif len(it.args) == 1:
+                            cnt = to_sympy(it.args[0]) + (1 if outside else 0)
+                        else:
+                            continue
+                    except Unsupported:
+                        continue
+                    count = sp.simplify(cnt)
+            if count is None:
+                count = sp.Integer(1) if len(ir_defs[E]) == 1 else None
+            facts.update(width=str(width), count=str(count))
+            if count is None:
+                raise AnalysisError(f"{rid}: cannot count how often `{E}` is extended for one edge group in {f.qual} (unrecognised form)")
+            diff = sp.simplify(width - count)
+            if diff == 0:
+                ctx.ok(rid, f, at, f"the group's slots are the last {width} of `{E}` ([length - {width}, length)), read after its {count} extension(s)",
+                       facts, label=label)
+            elif diff.is_number or width.free_symbols != count.free_symbols:
+                ctx.violation(rid, f, at, f"the slot range `{norm(rng)}` spans {width} slots but the group extended `{E}` {count} time(s): the edges are "
+                                          f"wired to slots that belong (partly) to another group", facts, label=label)
+            else:
+                raise AnalysisError(f"{rid}: cannot compare the width `{width}` of `{norm(rng)}` with the number of extensions `{count}`")
+    if n_sinks == 0:
+        raise AnalysisError(f"{rid}: no slot range of a shared edge IR found in CircuitTemplate.apply and its helpers (anchor vanished)")
+
+
 RULES = [
     ("C04-R1", r1_collapse_guard, 8),
     ("C04-R2", r2_append_ranges, 9),
@@ -1577,4 +1795,5 @@ RULES = [
     ("C04-R6", r6_indexing_dropped_only_for_identity, 1),
     ("C04-R7", r7_merge_key_is_the_operator_graph, 1),
     ("C04-R8", r_perm_identity, 1),
+    ("C04-R9", r9_shared_ir_slots, 2),
 ]
